@@ -63,3 +63,45 @@ Section Ige.
     call_fn X ige__decrypt__IvState__Decryptor__iv_state [self] = Some (VBlk (ige_iv_state (x, y)), [self]).
   Proof. unfold call_fn, call_src. evf. reflexivity. Qed.
 End Ige.
+
+(* ---- C02 over the translated source: the whole block sequence ---------------------------------------- *)
+From BM Require Import BlockModes_proofs Spec.
+Section IgeSource.
+  Variable C : cipher.
+  Variable n : nat.
+  Hypothesis E_len : forall x, length x = n -> length (c_E C x) = n.
+  Hypothesis D_len : forall x, length x = n -> length (c_D C x) = n.
+  Let X := bctx C [("xor", FSem xor_sem)] [("C::BlockSize::USIZE", VNat (c_bs C))].
+  Definition src_ige_enc_step (st : block * block) (c : cell) : option ((block * block) * cell) :=
+    match call_fn X ige__encrypt__BlockModeEncBackend__Backend__encrypt_block [be_self (fst st) (snd st) true; VCell c] with
+    | Some (VUnit, [VStruct _ [("x", VBlk x'); ("y", VBlk y'); _]; VCell c']) => Some ((x', y'), c') | _ => None end.
+  Definition src_ige_dec_step (st : block * block) (c : cell) : option ((block * block) * cell) :=
+    match call_fn X ige__decrypt__BlockModeDecBackend__Backend__decrypt_block [be_self (fst st) (snd st) false; VCell c] with
+    | Some (VUnit, [VStruct _ [("x", VBlk x'); ("y", VBlk y'); _]; VCell c']) => Some ((x', y'), c') | _ => None end.
+
+  Theorem C02_ige_enc_source x y cs : length x = n -> length y = n -> Forall (fun c => length (rd_in c) = n) cs ->
+    fold_src src_ige_enc_step (x, y) cs
+    = Some ((last (map rd_in cs) x, last (ige_enc_spec (c_E C) y x (map rd_in cs)) y), map2 wr_out cs (ige_enc_spec (c_E C) y x (map rd_in cs))).
+  Proof.
+    intros Hx Hy Hcs.
+    rewrite (fold_src_ok src_ige_enc_step (ige_enc_block C) (fun st => length (fst st) = n /\ length (snd st) = n) (fun c => length (rd_in c) = n)); auto.
+    - now rewrite ige_enc_fold.
+    - intros [sx sy] c [Hsx Hsy] Hc. cbn [fst snd] in *. unfold src_ige_enc_step, X. cbn [fst snd].
+      assert (HEl : length (c_E C (xorb (rd_in c) sy)) = n) by (apply E_len; rewrite xorb_length_eq; lia).
+      rewrite (tie_ige_encrypt_block C sx sy c) by lia.
+      unfold ige_enc_block. cbn [fst snd]. split; [reflexivity|]. split; [lia|]. rewrite xorb_length_eq; lia.
+  Qed.
+
+  Theorem C02_ige_dec_source x y cs : length x = n -> length y = n -> Forall (fun c => length (rd_in c) = n) cs ->
+    fold_src src_ige_dec_step (x, y) cs
+    = Some ((last (ige_dec_spec (c_D C) y x (map rd_in cs)) x, last (map rd_in cs) y), map2 wr_out cs (ige_dec_spec (c_D C) y x (map rd_in cs))).
+  Proof.
+    intros Hx Hy Hcs.
+    rewrite (fold_src_ok src_ige_dec_step (ige_dec_block C) (fun st => length (fst st) = n /\ length (snd st) = n) (fun c => length (rd_in c) = n)); auto.
+    - now rewrite ige_dec_fold.
+    - intros [sx sy] c [Hsx Hsy] Hc. cbn [fst snd] in *. unfold src_ige_dec_step, X. cbn [fst snd].
+      assert (HDl : length (c_D C (xorb (rd_in c) sx)) = n) by (apply D_len; rewrite xorb_length_eq; lia).
+      rewrite (tie_ige_decrypt_block C sx sy c) by lia.
+      unfold ige_dec_block. cbn [fst snd]. split; [reflexivity|]. split; [rewrite xorb_length_eq; lia | lia].
+  Qed.
+End IgeSource.
